@@ -198,7 +198,7 @@ def oracle(case, rec):
         comp = call(key + "/companion-construct", case, lossgen.companion, case, model)
         rec.label("companion-loss-object-on-same-model")
         lossgen.interleave(obj, ["cost", "gradient", "sensitivity", "sensitivityIV", "jac"],
-                           lambda: call(key + "/companion-gradient", case, comp.gradient))
+                           lambda: call(key + "/companion-work", case, lossgen.companion_work, comp))
     x0 = list(su["x0"])
     if iv:
         for s in (case["target_state"] or names):
